@@ -389,6 +389,11 @@ class Driver:
         for o in local:
             if o.bet_id and str(o.bet_id) not in self.exchange.bets:
                 raise Violation("local-order-with-unknown-bet", (), "local bet id %s unknown to the exchange" % o.bet_id, self.c)
+        # "... and their trades have completed / count towards the live-trade accounting": the runner contexts are
+        # recounted from the orders (the C10 recount) at the quiescent point
+        from . import c10
+
+        c10.live_invariant(self, {"op": "quiescent-point"})
         self.classes.add("quiescent-point-checked")
 
     def check_adoption(self, after_restart=False):
